@@ -93,7 +93,14 @@ def run(ck):
                 evlrs = fio.rand_vlrs(ck.rng, True) if (minor >= 4 and ck.rng.random() < 0.6) else None
                 kind = ck.rng.choice(["bytesio", "bytesio", "path", "file", "rawfile"])
                 try:
-                    las = fio.make_las(ck.rng, minor, fmt, n, params, vlrs=vlrs, evlrs=evlrs, scales=scales, offsets=offsets, style=style)
+                    import datetime as _dt
+                    las = fio.make_las(ck.rng, minor, fmt, n, params, vlrs=vlrs, evlrs=evlrs, scales=scales, offsets=offsets, style=style,
+                                       date=[_dt.date(2024, 12, 31), _dt.date(2023, 12, 31), _dt.date(2020, 12, 31), None][(k + fmt) % 4])
+                    if k == 2 or (k > 2 and ck.rng.random() < 0.3):
+                        # header texts that end in blanks, texts of the full width: what is read back is what was written
+                        las.header.system_identifier = ["SENSOR A  ", " x ", "a" * 31 + " ", "\t tabbed\t"][fmt % 4]
+                        las.header.generating_software = ["laspy-verif   ", "  ", "b" * 32][minor % 3]
+                        ck.count("header_texts_ending_in_blanks")
                 except Exception as e:
                     ck.count("gen_failed:" + type(e).__name__)
                     continue
